@@ -61,6 +61,9 @@ class Ctx:
                 line = line.strip()
                 if line and not line.startswith("#"):
                     self.known.append(json.loads(line))
+        # per-process scratch: two runs of the same check must never share generated .v files
+        self.scratch = os.path.join(V, "build", prop_id, "run-%d" % os.getpid())
+        os.makedirs(self.scratch, exist_ok=True)
         self.replay_dir = os.path.join(V, "replays", prop_id)
         os.makedirs(self.replay_dir, exist_ok=True)
         self.max_violations_per_site = 3
@@ -222,7 +225,7 @@ def check_props(ctx, extra_Q=(), props_file=None, workdir=None):
     """recompile Props/<id>.v into scratch, parse Print Assumptions. returns ok(bool), message"""
     pid = ctx.prop_id
     src = props_file or os.path.join(COQ, "theories", "Props", pid + ".v")
-    scratch = workdir or os.path.join(V, "build", pid)
+    scratch = workdir or ctx.scratch
     os.makedirs(scratch, exist_ok=True)
     txt = open(src).read()
     txt_nc = re.sub(r"\(\*.*?\*\)", " ", txt, flags=re.S)
@@ -347,7 +350,7 @@ def main():
     if ctx.model is not None and ok:
         dev = os.environ.get("VERIF_DEV")
         mods = dev.split(",") if dev else sorted(os.path.basename(p)[:-len("_ops.v")] for p in glob.glob(os.path.join(COQ, "theories", "Exec", "*_ops.v")))
-        n, bad = modelmod.crosscheck_vm(ctx.model, mods, os.path.join(V, "build", ctx.prop_id), limit=ctx.n(10, 40))
+        n, bad = modelmod.crosscheck_vm(ctx.model, mods, ctx.scratch, limit=ctx.n(10, 40))
         ctx.extraction_crosscheck = {"requests_recomputed_with_vm_compute": n, "mismatches": len(bad)}
         if bad:
             ctx.violation("extraction-crosscheck", "ocaml-driver", "extraction-mismatch", "extracted driver and vm_compute disagree: %s" % str(bad[0])[:300], {"mismatches": bad}, no_input=True)
@@ -360,6 +363,8 @@ def main():
         print("VIOLATION property=%s replay=%s%s" % (ctx.prop_id, path, " no-failing-input-found" if no_input else ""))
     if ctx.model:
         ctx.model.close()
+    import shutil
+    shutil.rmtree(ctx.scratch, ignore_errors=True)
     print("%s tier=%s seed=%d evaluations=%d distinct_nontrivial=%d obligations=%d discharged=%d violations=%d known=%d wall=%.1fs" % (
         ctx.prop_id, tier, seed, ctx.evaluations, len(ctx.nontrivial_keys), ctx.obligations, ctx.discharged,
         len(ctx.violations), len(ctx.known_hits), time.time() - ctx.t0))
